@@ -35,7 +35,14 @@ def datetime_isostring(date, keep_microseconds=False):
 
     # naive dates are local time: attach the utc offset that is in force at that date,
     # not the one of today (daylight saving time)
-    return date_to_format.astimezone().isoformat()
+    local_date = date_to_format.astimezone()
+    # an offset with a seconds part (local mean time of old dates) cannot be written in an ISO / xs:dateTime value:
+    # the same instant is given with the offset rounded to the minute
+    utc_offset = local_date.utcoffset()
+    if utc_offset.seconds % 60 or utc_offset.microseconds:
+        rounded_offset = datetime.timedelta(minutes=round(utc_offset.total_seconds() / 60))
+        local_date = local_date.astimezone(datetime.timezone(rounded_offset))
+    return local_date.isoformat()
 
 
 def datetime_now_isostring():
